@@ -13,7 +13,12 @@ e == Rec_[l]
 Ev(name) == l <= NE /\ e.ev = name /\ l' = l + 1
 \* logged after every call: the counter (as a signed 64-bit number), the state, wake-ups issued during the call
 \* (a wake-up is required only where a parked burst task must be resumed; additional, spurious ones are legal)
-Obs == credit' = e.credit /\ state' = e.state /\ ((asleep /\ wakes' > wakes) => e.wakes > 0)
+\* e.woke_saw: what balance() answered when called from inside Waker::wake during this call (the woken task running at once).
+\* When the call is a notifier that made budget available to a parked task, some wake-up must have found it available.
+SawBudget == \E i \in DOMAIN e.woke_saw : e.woke_saw[i].r # "wait"
+Obs == /\ credit' = e.credit /\ state' = e.state
+       /\ (asleep /\ wakes' > wakes) => e.wakes > 0
+       /\ (asleep /\ wakes' > wakes /\ ~(state' = NORMAL /\ credit' = 0)) => SawBudget
 Clip(x) == IF Huge(x) THEN -1 ELSE x
 TReset == Ev("reset") /\ Reset
 TRcvd == Ev("rcvd") /\ OnRcvd(e.n) /\ Obs
@@ -31,7 +36,7 @@ TraceInit == l = 1 /\ Init
 TraceNext == TReset \/ TRcvd \/ TBalance \/ TSent \/ TGrant \/ TAbort \/ TWait \/ TSeg \/ TNoop
 
 \* ---- per-path byte stream of a full-stack run
-PKeep == UNCHANGED <<credit, wbit, wreg, wakes, asleep, disc, cons, task, sp, res>>
+PKeep == UNCHANGED <<credit, wbit, wreg, wakes, asleep, badwake, disc, cons, task, sp, res>>
 PRcvd == Ev("rcvd") /\ rcvd' = rcvd + e.n /\ UNCHANGED <<sent, state>> /\ PKeep
 PSent == Ev("sent") /\ sent' = sent + e.n /\ UNCHANGED <<rcvd, state>> /\ PKeep
 PGrant == Ev("grant") /\ state' = (IF state = NORMAL THEN GRANTED ELSE state) /\ UNCHANGED <<rcvd, sent>> /\ PKeep
